@@ -295,6 +295,10 @@ func c11Loopback(c *Ctx) {
 				// waits its turn and must then collect replies for a full timeout of its own
 				queued := i%4 == 1
 				nReplies := r.Pick(30)
+				if i%6 == 2 {
+					nReplies = 70 + r.Pick(130) // a whole site answers at once: far more replies than any internal queue is likely to hold
+					c.Res.Count("loopback:discoveries-with-70..200-replies", 1)
+				}
 				var holder sync.WaitGroup
 				if queued {
 					if p := freePort(workerIP(c, w)); p != 0 {
